@@ -14,8 +14,9 @@
 // asks the Chooser which thread continues. The chosen thread executes its
 // pending operation atomically and runs on to its next visible operation.
 // Alternatives are presented in canonical order: the running thread first if
-// it is still enabled, then ascending thread ids, then the environment
-// (timer) pseudo thread.
+// it is still enabled, then ascending thread ids (with delay bounding,
+// Config.FreeSwitchCost > 0: then the others in round-robin order, the one that
+// has not run for longest first), then the environment (timer) pseudo thread.
 package vsched
 
 import (
@@ -76,6 +77,10 @@ type thread struct {
 	done    bool
 	killed  bool
 	started bool
+	// lastRan is the step at which the thread last stopped running (0: never
+	// ran). With delay bounding the alternatives are offered in round-robin
+	// order: the thread that has waited longest first.
+	lastRan int
 }
 
 type timer struct {
@@ -448,6 +453,16 @@ func (s *sched) reschedule(self *thread, exiting bool) {
 				en = append(en, t)
 			}
 		}
+		if s.freeCost > 0 {
+			// delay bounding (Emmi, Qadeer, Rakamaric): the default scheduler is
+			// a non-preemptive round-robin; a thread that is delayed goes to the back
+			// of the queue, so that one deviation lets all the others run before it
+			rest := en
+			if selfEnabled {
+				rest = en[1:]
+			}
+			sort.SliceStable(rest, func(i, j int) bool { return rest[i].lastRan < rest[j].lastRan })
+		}
 		nt := s.nextTimer()
 		if len(en) == 0 {
 			if nt != nil && s.idleFires < 25 {
@@ -509,6 +524,7 @@ func (s *sched) reschedule(self *thread, exiting bool) {
 			s.afterStep()
 			return
 		}
+		self.lastRan = s.steps
 		s.cur = next
 		next.resume <- struct{}{}
 		if exiting {
